@@ -59,8 +59,12 @@ func (b *message) ReadUint32() (r uint32) {
 }
 
 func (b *message) ReadString() (r string) {
-	end := b.offset
 	maximum := uint32(len(b.data))
+	if b.offset >= maximum {
+		b.offset = maximum
+		return ""
+	}
+	end := b.offset
 	for ; end != maximum && b.data[end] != 0; end++ {
 	}
 	r = string(b.data[b.offset:end])
@@ -99,7 +103,14 @@ func (m *MatchPostgres) Match(cx *layer4.Connection) (bool, error) {
 	}
 
 	// Get actual message length
-	data := make([]byte, binary.BigEndian.Uint32(head)-initMessageSizeLength)
+	// The length includes itself and must leave room for the 4-byte request code or protocol version.
+	// A message that can never fit into the matching buffer is rejected without allocating for it.
+	size := binary.BigEndian.Uint32(head)
+	if size < initMessageSizeLength+4 || size > 2*layer4.MaxMatchingBytes {
+		return false, nil
+	}
+
+	data := make([]byte, size-initMessageSizeLength)
 	if _, err := io.ReadFull(cx, data); err != nil {
 		return false, err
 	}
